@@ -12,8 +12,8 @@ mod verif_nx_parse {
     use crate::defaults::lexer::DelphiLexer;
     use crate::traits::{Lexer, LogicalLineParser};
 
-    const ALPHA: [&str; 22] = [
-        "begin ", "end ", "; ", "a ", ":= ", "if ", "then ", "else ", "( ", ") ", "{$ifdef X} ", "{$else} ", "{$endif} ",
+    const ALPHA: [&str; 23] = [
+        "begin ", "end ", "; ", "a ", ":= ", "if ", "then ", "else ", "( ", ") ", "{$ifdef X} ", "{$else} ", "{$endif} ", "{$define T} ",
         "//c\n", "procedure ", "var ", ": ", "case ", "of ", "asm ", "class ", ", ",
     ];
 
@@ -128,8 +128,8 @@ mod verif_nx_parse {
     }
 
     // a wider alphabet (operators, brackets, literals, more keywords) up to length 3
-    const WIDE: [&str; 44] = [
-        "begin ", "end ", "; ", "a ", ":= ", "if ", "then ", "else ", "( ", ") ", "{$ifdef X} ", "{$else} ", "{$endif} ",
+    const WIDE: [&str; 46] = [
+        "begin ", "end ", "; ", "a ", ":= ", "if ", "then ", "else ", "( ", ") ", "{$ifdef X} ", "{$else} ", "{$endif} ", "{$define T} ", "{ c } ",
         "//c\n", "procedure ", "var ", ": ", "case ", "of ", "asm ", "class ", ", ",
         "^ ", "< ", "> ", "= ", ". ", "[ ", "] ", "'s' ", "1 ", "@ ", "property ", "type ", "record ", "interface ", "function ", "try ", "except ",
         "for ", "do ", "{$if X} ", "uses ", "const ",
@@ -169,7 +169,7 @@ mod verif_nx_parse {
             }
         }
         println!("NX parse_cover_len5_thorough: {} cases", n);
-        assert!(n > 5_000_000, "enumeration ran");
+        assert!(n > 6_000_000, "enumeration ran");
     }
 
     // all sequences up to length 4 (22^4 = 234 256 + shorter)
